@@ -670,6 +670,24 @@ pub fn compiled_batch(seed: u64, n_hist: usize, n_fam: usize) -> Batch {
             ],
         },
     }));
+    // constructors whose transient fields share a name (or a position) and a type, with different defaults
+    {
+        let tr = |n: &str, d: i128| Field { name: n.into(), ty: Ty::U32, transient: Some(Val::Int(d)), opt_spelling: 0 };
+        specials.push(Arc::new(Decl {
+            name: "SameTr".into(),
+            body: DeclBody::Enum {
+                sorted: false,
+                steps: vec![],
+                variants: vec![
+                    Variant { name: "Queued".into(), shape: Shape::Struct, transient: false, record: Record { fields: vec![tr("attempts", 0), f("id", Ty::U8)], steps: vec![] } },
+                    Variant { name: "Running".into(), shape: Shape::Struct, transient: false, record: Record { fields: vec![tr("attempts", 1), f("who", Ty::Str)], steps: vec![] } },
+                    Variant { name: "Tup".into(), shape: Shape::Tuple, transient: false, record: Record { fields: vec![tr("field0", 7), f("field1", Ty::U8)], steps: vec![] } },
+                    Variant { name: "Tup2".into(), shape: Shape::Tuple, transient: false, record: Record { fields: vec![tr("field0", 9), f("field1", Ty::U16)], steps: vec![] } },
+                    Variant { name: "Done".into(), shape: Shape::Struct, transient: false, record: Record { fields: vec![f("id", Ty::U8), tr("attempts", 2)], steps: vec![Step::Added { name: "id".into(), default: Val::Int(0) }] } },
+                ],
+            },
+        }));
+    }
     // an enum with a single unit constructor: no size in memory, three bytes on the wire
     specials.push(Arc::new(Decl { name: "OneCtor".into(), body: DeclBody::Enum { sorted: false, steps: vec![], variants: vec![Variant { name: "Only".into(), shape: Shape::Unit, transient: false, record: Record { fields: vec![], steps: vec![] } }] } }));
     // only unit constructors, some of them transient (and one more than once)
